@@ -87,8 +87,7 @@ theorem C12_source_detached_shape (i c s L n a : Nat) :
     Gen.detReset.index' i c s L n a = s ∧ Gen.detReset.cached' i c s L n a = 0 ∧
     Gen.detAdvance.index' i c s L n a = Gen.advanceLocal.index' i c s L n a ∧ Gen.adetAdvance.index' i c s L n a = Gen.advanceLocal.index' i c s L n a ∧
     Gen.skelAttach = [⟨.syncIndex, .none⟩] ∧ Gen.skelDetSync = [⟨.setAtomicIndex, .index⟩] ∧ Gen.skelDetAdvance = [⟨.advanceLocal, .count⟩] ∧
-    Gen.skelDetReset.map (·.name) = [.succIndex, .setLocalIndex, .setCachedAvail] ∧
-    Gen.skelDetSetIndex.map (·.name) = [.setLocalIndex, .setCachedAvail] ∧ Gen.skelDetGoBack.map (·.name) = [.setLocalIndex, .setCachedAvail] :=
+    Gen.skelDetReset.map (·.name) = [.succIndex] ∧ Gen.skelDetSetIndex = [] ∧ Gen.skelDetGoBack = [] :=
   ⟨rfl, rfl, rfl, rfl, rfl, rfl, rfl, rfl, rfl, rfl, rfl, rfl, rfl, rfl, rfl, rfl, rfl, rfl, rfl, rfl⟩
 
 /-- Non-vacuity (the witnesses of defects D2 and D3): len 8, detached worker at index 2 goes back 3 → 7;
